@@ -324,6 +324,60 @@ func C19(run *hx.Run) {
 					}
 					run.See("nested_result_sets", kind)
 				}
+				// ONE prepared statement of a connection executed again while its first result set is still open:
+				// a refusal is fine, two correct result sets are fine; two goroutines on one handle are not
+				if conn, err := sq.Conn(ctx); err == nil {
+					if st, err := conn.PrepareContext(ctx, "SELECT id, v FROM t_alias"); err == nil {
+						for round := 0; round < 6; round++ {
+							r1, err1 := st.QueryContext(ctx)
+							if err1 != nil {
+								run.Violation("C19/same-statement-twice/first-query", err1.Error(), nil)
+								break
+							}
+							if round%2 == 1 {
+								r1.Next()
+							}
+							r2, err2 := st.QueryContext(ctx)
+							run.Eval(1)
+							var got2 []hx.Row
+							if err2 == nil {
+								for r2.Next() {
+									var a, b interface{}
+									r2.Scan(&a, &b)
+									got2 = append(got2, hx.CloneRow([]hx.Value{a, b}))
+								}
+								if e := r2.Err(); e != nil {
+									err2 = e
+								}
+								r2.Close()
+							}
+							n1 := 0
+							if round%2 == 1 {
+								n1 = 1
+							}
+							for r1.Next() {
+								n1++
+							}
+							e1 := r1.Err()
+							r1.Close()
+							if e1 != nil || n1 != len(wantA) {
+								run.Violation("C19/same-statement-twice/first-result", fmt.Sprintf("the first result set of a statement that was executed again meanwhile: %d of %d rows, err=%v", n1, len(wantA), e1), nil)
+								break
+							}
+							if err2 == nil {
+								if df := diffRows(wantA, got2); df != "" {
+									run.Violation("C19/same-statement-twice/second-result", "second result set of the same prepared statement: "+df, nil)
+									break
+								}
+								run.See("same_statement_twice", "both result sets complete")
+							} else {
+								run.See("same_statement_twice", "second execution refused")
+							}
+						}
+						st.Close()
+					}
+					conn.Close()
+				}
 				if tx, err := sq.BeginTx(ctx, nil); err == nil {
 					nested("sql.Tx", tx, func() { tx.Rollback() })
 				}
